@@ -46,6 +46,8 @@ def harnesses_for(prop, tier):
         return [n for n in QUICK[prop] if n in H and prop in H[n]["props"]]
     out = []
     for n, h in H.items():
+        if h["tier"] == "parked":
+            continue  # written, but no verdict was obtained within reach on this machine (DESIGN.md section 13): claimed by no check
         if prop in h["props"] and (tier == "thorough" or h["tier"] == "quick"):
             out.append(n)
     return out
